@@ -82,6 +82,8 @@ class Sched:
         self.sync_passed = 0
         self.max_parked = 0
         self.parked_at_release: List[int] = []
+        self.waited_for_threads = 0
+        self.in_executor = 0
 
     async def point(self, label: Any) -> None:
         if not self.enabled or label in self.sync_labels:
@@ -107,6 +109,13 @@ class Sched:
     def _quiescent(self, loop) -> bool:
         ready = getattr(loop, "_ready", None)
         if ready is None:
+            return False
+        if len(ready) != 0:
+            return False
+        # work handed to a thread pool (asyncio.to_thread / loop.run_in_executor) is library work in flight, too: run() counts the
+        # executor futures that are not done yet (their completion reaches the loop through call_soon_threadsafe, i.e. through _ready)
+        if self.in_executor > 0:
+            self.waited_for_threads += 1
             return False
         return len(ready) == 0
 
@@ -150,12 +159,29 @@ class Sched:
 
     async def run(self, coro: Awaitable) -> Any:
         """runs coro as its own task (own copy of the context) under this scheduler; returns its result or raises its exception"""
+        loop = asyncio.get_running_loop()
+        original = loop.run_in_executor
+
+        def counting_run_in_executor(executor, func, *args):
+            fut = original(executor, func, *args)
+            self.in_executor += 1
+
+            def done(_f):
+                self.in_executor -= 1
+
+            fut.add_done_callback(done)
+            return fut
+
+        if self.enabled:
+            loop.run_in_executor = counting_run_in_executor  # type:ignore[method-assign]
         main = asyncio.ensure_future(coro)
         try:
             if self.enabled:
                 await self._drive(main)
             return await main
         finally:
+            if self.enabled:
+                del loop.run_in_executor  # the instance attribute; the class method is back
             await self._cleanup(main)
 
     async def run_capture(self, coro: Awaitable) -> Tuple[str, Any]:
